@@ -241,14 +241,13 @@ SCHEMA_DDL = [
     ("CREATE SCHEMA IF NOT EXISTS {q}{n}", "Schema {N} successfully created."),
     ("drop schema {q}{n}", "{N} successfully dropped."),
     ("create database {n}", "Database {N} successfully created."),
-    ("drop database {n}", "{N} successfully dropped."),
 ]
 
 
 @ob(
     "C04.schema_database_status",
     encodes=["fakesnow.cursor.FakeSnowflakeCursor._execute (CREATE/DROP SCHEMA|DATABASE status)", "fakesnow.transforms.create_database", "fakesnow.transforms.drop_schema_cascade"],
-    bounds="5 schema/database DDL forms x 4 object spellings (lower/mixed/upper/with _ and digit) x qualified or not",
+    bounds="4 schema/database DDL forms (DROP DATABASE is not supported by fakesnow: outside the claim) x 4 object spellings (lower/mixed/upper/with _ and digit) x qualified or not",
     timeout=(200, 400),
     stubs=["K2 vf.duckstub.Engine"],
 )
@@ -265,8 +264,6 @@ def schema_status(d: int, ni: int, qualified: bool) -> bool:
     if tmpl.startswith("drop schema"):
         eng.add_schema(db, folded)
         eng.add_table(db, folded, "X")  # non-empty: Snowflake drops it anyway
-    if tmpl.startswith("drop database"):
-        eng.add_db(folded)
     cur = conn.cursor()
     cur.execute(tmpl.format(q=q, n=spelled))
     rows = cur.fetchall()
